@@ -11,14 +11,18 @@ import (
 	"hash"
 	"io"
 	"math/rand"
+	"runtime"
+	"sync"
+	"sync/atomic"
 	"time"
+
+	"google.golang.org/protobuf/proto"
 
 	"github.com/scionproto/scion/control/beaconing"
 	"github.com/scionproto/scion/control/ifstate"
 	cryptopb "github.com/scionproto/scion/pkg/proto/crypto"
 	"github.com/scionproto/scion/pkg/scrypto"
 	"github.com/scionproto/scion/pkg/scrypto/cppki"
-	"github.com/scionproto/scion/pkg/scrypto/signed"
 	seg "github.com/scionproto/scion/pkg/segment"
 	"github.com/scionproto/scion/pkg/segment/extensions/discovery"
 	"github.com/scionproto/scion/router/control"
@@ -34,18 +38,39 @@ func (k fakeKey) Sign(io.Reader, []byte, crypto.SignerOpts) ([]byte, error) {
 
 type fakeSigner struct{ key fakeKey }
 
-func (s fakeSigner) Sign(_ context.Context, msg []byte, ad ...[]byte) (*cryptopb.SignedMessage,
+func (s fakeSigner) Sign(_ context.Context, msg []byte, _ ...[]byte) (*cryptopb.SignedMessage,
 	error) {
-	n := 0
-	for _, d := range ad {
-		n += len(d)
+	// the body must be extractable (beacons are cloned through protobuf); nothing is signed
+	hb, err := proto.Marshal(&cryptopb.HeaderAndBody{Body: msg})
+	if err != nil {
+		return nil, err
 	}
-	return signed.Sign(signed.Header{SignatureAlgorithm: signed.ECDSAWithSHA256,
-		AssociatedDataLength: n}, msg, s.key, ad...)
+	return &cryptopb.SignedMessage{HeaderAndBody: hb, Signature: []byte("not-a-signature")}, nil
 }
+
 func (s fakeSigner) Validity() cppki.Validity {
 	return cppki.Validity{NotBefore: time.Unix(0, 0), NotAfter: time.Now().Add(1000 * time.Hour)}
 }
+
+// yieldHash wraps the hash instances the harness hands to the extender (the MAC factory is an input
+// of DefaultExtender): every operation yields the processor first.  For code that uses a hash
+// instance from one goroutine at a time this changes nothing; it widens the window in which
+// goroutines sharing an instance (or any other state around the MAC computation) interleave —
+// schedule perturbation at a boundary the harness owns, not a change of the code under test.
+type yieldHash struct {
+	hash.Hash
+	on *atomic.Bool
+}
+
+func (y yieldHash) pause() {
+	if y.on.Load() {
+		runtime.Gosched()
+		time.Sleep(5 * time.Microsecond)
+	}
+}
+func (y yieldHash) Write(b []byte) (int, error) { y.pause(); return y.Hash.Write(b) }
+func (y yieldHash) Sum(b []byte) []byte         { y.pause(); return y.Hash.Sum(b) }
+func (y yieldHash) Reset()                      { y.Hash.Reset(); y.pause() }
 
 // SegRec is one terminated (registered) segment.
 type SegRec struct {
@@ -81,15 +106,18 @@ type hopKey struct {
 
 // Control is the control plane of a topology: per-AS keys, extenders, the registered segments.
 type Control struct {
-	T      *Topo
-	Keys   [][]byte // derived forwarding keys (what router and extender get)
-	Ext    []*beaconing.DefaultExtender
-	Segs   []*SegRec
-	hops   map[hopKey]HopID
-	MaxLen int
-	rng    *rand.Rand
-	now    time.Time
-	nbeac  int
+	T       *Topo
+	Keys    [][]byte // derived forwarding keys (what router and extender get)
+	Ext     []*beaconing.DefaultExtender
+	Segs    []*SegRec
+	hops    map[hopKey]HopID
+	MaxLen  int
+	rng     *rand.Rand
+	peerIfs [][]uint16
+	perturb atomic.Bool // concurrent beaconing: yield inside MAC computations
+	Panics  []string    // panics of Extend during concurrent beaconing
+	now     time.Time
+	nbeac   int
 	// ExpOf lets a scenario shorten the expiry of the hop fields of one AS (index -> ExpTime).
 	ExpOf map[int]uint8
 	// TsAge is how far in the past segment timestamps are.
@@ -123,7 +151,7 @@ func NewControl(t *Topo, rng *rand.Rand, maxLen int) *Control {
 				if err != nil {
 					panic(err)
 				}
-				return m
+				return yieldHash{Hash: m, on: &c.perturb}
 			},
 			Intfs: ifstate.NewInterfaces(infos, ifstate.Config{}),
 			MTU:   1472,
@@ -150,6 +178,16 @@ func cloneBeacon(b *seg.PathSegment) *seg.PathSegment {
 }
 
 func (c *Control) peers(as int) []uint16 {
+	if c.peerIfs == nil {
+		c.peerIfs = make([][]uint16, len(c.T.ASes))
+		for i := range c.T.ASes {
+			c.peerIfs[i] = c.peersOf(i)
+		}
+	}
+	return c.peerIfs[as]
+}
+
+func (c *Control) peersOf(as int) []uint16 {
 	var p []uint16
 	for _, e := range c.T.Ends(as) {
 		if e.LinkTo.String() == "peer" {
@@ -264,3 +302,133 @@ func (c *Control) SegsFor(src, dst int) (ups, cores, downs []*seg.PathSegment) {
 	}
 	return
 }
+
+// ctask is one Extend call of the concurrent beaconing.
+type ctask struct {
+	as       int
+	b        *seg.PathSegment
+	in, eg   uint16
+	visited  []int
+	next     End // propagation / origination: the link the beacon leaves through
+	core     bool
+	register bool
+	failed   bool
+}
+
+// BeaconConcurrent produces the same beacons as Beacon, but the way the control service does:
+// the Originator starts one goroutine per egress interface, the Propagator one per beacon and
+// egress interface, the Writer registers terminated segments — all of them extend through the one
+// DefaultExtender of the AS at the same time.  Every level of the beacon tree is extended
+// concurrently (one goroutine per Extend call, released together); results are registered in a
+// deterministic order.
+//
+// intervals > 1 overlaps that many beaconing intervals (Originator, Propagator and Writer are
+// independent periodic tasks of the control service; beacons of different origins and ages are in
+// the works at the same time).
+func (c *Control) BeaconConcurrent(intervals int) {
+	ctx := context.Background()
+	c.peers(0) // fill the cache before the goroutines start
+	c.perturb.Store(true)
+	defer c.perturb.Store(false)
+	var level []*ctask
+	for iv := 0; iv < intervals; iv++ {
+		level = append(level, c.originations()...)
+	}
+	for len(level) > 0 {
+		var start atomic.Bool
+		var wg sync.WaitGroup
+		var pmu sync.Mutex
+		for _, t := range level {
+			wg.Add(1)
+			go func(t *ctask) {
+				defer wg.Done()
+				defer func() {
+					// a crash of the real extender is recorded as an event, never judged here
+					if r := recover(); r != nil {
+						pmu.Lock()
+						c.Panics = append(c.Panics, fmt.Sprint(r))
+						t.failed = true
+						pmu.Unlock()
+					}
+				}()
+				for !start.Load() {
+					runtime.Gosched()
+				}
+				if err := c.Ext[t.as].Extend(ctx, t.b, t.in, t.eg, c.peers(t.as)); err != nil {
+					panic(fmt.Sprintf("extend %s: %v", c.T.ASes[t.as].Name, err))
+				}
+			}(t)
+		}
+		start.Store(true)
+		wg.Wait()
+		level = c.nextLevel(level)
+	}
+}
+
+func (c *Control) originations() []*ctask {
+	var level []*ctask
+	for o, a := range c.T.ASes {
+		if !a.Core {
+			continue
+		}
+		for _, e := range c.T.Ends(o) {
+			lt := e.LinkTo.String()
+			if lt != "core" && lt != "child" {
+				continue
+			}
+			c.nbeac++
+			ts := c.now.Add(-c.TsAge - time.Duration(c.nbeac)*time.Second)
+			b, err := seg.CreateSegment(ts, uint16(c.rng.Intn(1<<16)))
+			if err != nil {
+				panic(err)
+			}
+			level = append(level, &ctask{as: o, b: b, in: 0, eg: e.If, visited: []int{o}, next: e,
+				core: lt == "core"})
+		}
+	}
+	return level
+}
+
+func (c *Control) nextLevel(level []*ctask) []*ctask {
+	{
+		var next []*ctask
+		for _, t := range level {
+			if t.failed {
+				continue
+			}
+			if t.register {
+				c.register(t.b, t.visited, t.core)
+				continue
+			}
+			// the beacon arrives at the neighbour: terminate (register) and propagate further
+			as := t.next.PeerAS
+			seen := false
+			for _, v := range t.visited {
+				seen = seen || v == as
+			}
+			if seen {
+				continue
+			}
+			visited := append(append([]int(nil), t.visited...), as)
+			next = append(next, &ctask{as: as, b: cloneBeacon(t.b), in: t.next.PeerIf, eg: 0,
+				visited: visited, core: t.core, register: true})
+			if len(visited) >= c.MaxLen {
+				continue
+			}
+			want := "child"
+			if t.core {
+				want = "core"
+			}
+			for _, e := range c.T.Ends(as) {
+				if e.LinkTo.String() == want {
+					next = append(next, &ctask{as: as, b: cloneBeacon(t.b), in: t.next.PeerIf,
+						eg: e.If, visited: visited, next: e, core: t.core})
+				}
+			}
+		}
+		return next
+	}
+}
+
+// ResetSegs forgets the registered segments (a new beaconing interval); the hop registry is kept.
+func (c *Control) ResetSegs() { c.Segs = nil }
